@@ -22,7 +22,7 @@ import random
 import sys
 
 from harness import sched
-sched.CORE_TABLES = sched.CORE_TABLES + ('resource_classes', 'traits')
+BASE_CORE_TABLES = sched.CORE_TABLES
 
 from harness import checks_conc  # noqa: E402
 from harness import conc  # noqa: E402
@@ -121,6 +121,8 @@ SCENARIOS = {
                                      ('alloc_put', 39, dict(cons(2, 1, [(6, [(0, 1)])]), user=2))]),
     ],
 }
+# scenarios judged by the oracles only (the model's thread has another transaction granularity there)
+MODEL_SKIP = {'reshape-wiping-consumer-vs-class-delete'}
 BUDGET = {'quick': 24, 'thorough': 400}        # executed interleavings per scenario
 
 
@@ -208,13 +210,23 @@ def cached_class_race(scn, obs, text):
     return wipes and deletes
 
 
+def set_granularity(pid):
+    # C08 races class / trait CRUD against their users: there a transaction reading resource_classes or traits is a
+    # scheduling point of its own (the granularity of Model/ConcAll.v's class and trait threads); elsewhere the granularity
+    # is that of the C05-C07 schedule streams (Model/Conc.v)
+    # (the trait look-up of PUT /resource_providers/{u}/traits is a step of its own in ConcAll: traits is a core table everywhere)
+    sched.CORE_TABLES = BASE_CORE_TABLES + (('resource_classes', 'traits') if pid == 'C08' else ('traits',))
+
+
 def run(pid, tier, seed):
+    set_granularity(pid)
     conc.init_engine()
     rng = random.Random(seed * 31 + int(pid[1:]))
     per = BUDGET[tier]
     stats = {'scenarios': 0, 'schedules': 0, 'outcomes': collections.Counter(), 'known_pattern_schedules': 0}
     viols = []
     tree_cases = []
+    all_cases = []
     for entry in SCENARIOS[pid]:
         name, reqs = entry[0], entry[1]
         explicit = entry[2] if len(entry) > 2 else []
@@ -248,6 +260,8 @@ def run(pid, tier, seed):
         for used, obs, dump in runs:
             if pid == 'C09':
                 tree_cases.append((scn, list(used), [o[0] for o in obs], dump))
+            elif scn.name not in MODEL_SKIP:
+                all_cases.append((scn, list(used), [o[0] for o in obs], dump))
             stats['schedules'] += 1
             stats['outcomes'][str(tuple(o[0] for o in obs))] += 1
             for kind, text in judge(pid, scn, obs, dump, start_dump):
@@ -261,6 +275,21 @@ def run(pid, tier, seed):
                                           'statuses': [o[0] for o in obs], 'check': kind}, 'text': text})
     stats['outcomes'] = dict(stats['outcomes'])
     res = {'violations': viols, 'stats': stats}
+    if pid != 'C09':
+        # every request kind is a thread of Model/ConcAll.v (theorems C08_ri_all_schedules_partial ...): every executed schedule
+        # is replayed there - statuses and core tables must agree
+        try:
+            bad = tree_model_check(all_cases, setup=SETUP, module='ConcAll', fn='a_sched_agrees',
+                                   rcmap={1000: 10000, 1001: 10001})
+            stats['model_compared_schedules'] = len(all_cases)
+            stats['model_disagreements'] = len(bad)
+            if bad:
+                c = all_cases[bad[0]]
+                res['model_error'] = ('Model/ConcAll.v disagrees with the service on %d of %d schedules; first: scenario %s schedule %r '
+                                      'statuses %r' % (len(bad), len(all_cases), c[0].name, c[1], c[2]))
+                res['model_bad'] = [(all_cases[i][0].name, all_cases[i][1], all_cases[i][2]) for i in bad[:12]]
+        except Exception as exc:        # noqa
+            res['model_error'] = 'Model/ConcAll.v could not be evaluated: %s' % str(exc)[-500:]
     if pid == 'C09':
         # provider create / update / delete are modelled under interleaving (Model/ConcTree.v, theorems C09_forest_all_schedules
         # ...): every executed schedule is replayed in the model - statuses and core tables must agree
@@ -277,18 +306,20 @@ def run(pid, tier, seed):
     return res
 
 
-def tree_model_check(cases):
-    """cases: [(scenario, used schedule, statuses, dump)] -> indices on which tt_sched_agrees is false"""
+def tree_model_check(cases, setup=None, module='ConcTree', fn='tt_sched_agrees', rcmap=None):
+    """cases: [(scenario, used schedule, statuses, dump)] -> indices on which the model's *_sched_agrees is false"""
     from harness import coqrun
     import tempfile
+    setup = TREE_SETUP if setup is None else setup
+    rcmap = rcmap or {}
     workdir = tempfile.mkdtemp(prefix='pvtree', dir='/dev/shm' if os.path.isdir('/dev/shm') else None)
     path = os.path.join(workdir, 'tree_cases.v')
     with open(path, 'w') as f:
-        f.write('From PV Require Import Model.ConcTree.\nDefinition cf := mkCfg 0 0.\n')
-        f.write('Definition setup := %s.\n' % ops.lst(ops.op_coq(o, {}) for o in TREE_SETUP))
+        f.write('From PV Require Import Model.%s.\nDefinition cf := mkCfg 0 0.\n' % module)
+        f.write('Definition setup := %s.\n' % ops.lst(ops.op_coq(o, rcmap) for o in setup))
         for i, (scn, used, sts, dmp) in enumerate(cases):
-            f.write('Definition c%d := tt_sched_agrees cf (setup, %s, %s, %s, %s).\n' % (
-                i, ops.lst(ops.op_coq(o, {}) for o in scn.requests), ops.lst(ops.z(x) for x in used),
+            f.write('Definition c%d := %s cf (setup, %s, %s, %s, %s).\n' % (
+                i, fn, ops.lst(ops.op_coq(o, rcmap) for o in scn.requests), ops.lst(ops.z(x) for x in used),
                 ops.lst(ops.z(x) for x in sts), ops.dump_coq(dmp)))
         f.write('Eval vm_compute in [%s].\n' % '; '.join('(if c%d then 1 else 0)' % i for i in range(len(cases))))
     vals = coqrun.run_coq(path, timeout=1200)
@@ -300,6 +331,7 @@ def tree_model_check(cases):
 def replay(pid, path):
     from harness.checks_seq import tuple_op
     p = json.load(open(path))
+    set_granularity(pid)
     conc.init_engine()
     s = p['scenario']
     scn = conc.Scenario(s['name'], [tuple_op(o) for o in s['setup']], [tuple_op(o) for o in s['requests']], [])
